@@ -9,7 +9,7 @@ rsync -a --exclude .git /repo/ "$D/repo/"
 mkdir -p "$D/verif/evidence"
 cp /verif/KNOWN_FINDINGS.txt "$D/verif/" 2>/dev/null
 for p in $props; do
-  out=$(VERIF_REPO="$D/repo" VERIF_DIR="$D/verif" /verif/bin/check $p ${TIER:+--tier $TIER} 2>&1 | grep -v conda)
+  out=$(VERIF_REPO="$D/repo" VERIF_DIR="$D/verif" ${BIN:-/verif/bin/check} $p ${TIER:+--tier $TIER} 2>&1 | grep -v conda)
   rc=$?
   nv=$(echo "$out" | grep -c "^VIOLATION")
   echo "== $name vs $p: $(echo "$out" | tail -1)"
